@@ -76,10 +76,7 @@ func (propC18) Gen(seed uint64, tier string, idx int) *Plan {
 	switch scen {
 	case "live":
 		if streaming {
-			resp.Gate = true
-			if resp.Framing == "cl" {
-				resp.Framing = "chunked"
-			}
+			resp.Gate = true // whatever the framing: a declared Content-Length does not make a response less live
 		}
 		if prof != "standard" && r.Chance(350) {
 			// the same promise on the translated route: an Anthropic client streaming from an OpenAI-only
@@ -227,9 +224,22 @@ func (propC18) Check(r *Run) []Violation {
 		}
 	case "abort":
 		if c.Aborted != "" {
-			bound := 7 * time.Second
+			// "promptly": a few network round trips plus the same 1 s of slack the liveness gate allows;
+			// in any case well below the read timeout, or the clause would say nothing beyond the stall clause
+			bound := time.Second + 4*(r.Plan.Net.BaseLatency+r.Plan.Net.Jitter)
 			if e.Completed {
 				break // the backend had finished before the abort mattered
+			}
+			if e.PeerGoneAt != 0 {
+				r.Sim.Probe(fmt.Sprintf("c18.cancel-latency-%s-le-%dms", eng, func() int {
+					d := (e.PeerGoneAt - c.DoneAt).Milliseconds()
+					for _, b := range []int64{10, 100, 500, 1000, 2000, 3000, 5000, 7000} {
+						if d <= b {
+							return int(b)
+						}
+					}
+					return 99999
+				}()))
 			}
 			if e.PeerGoneAt == 0 {
 				add("C18/cancellation-not-propagated", "client aborted (%s) at %s; the backend never saw its connection go away (exchange done at %s)", c.Aborted, c.DoneAt, e.DoneAt)
